@@ -97,9 +97,12 @@ func (t *Task) resolveMod(env *ExprEnv, item, src string) []modTarget {
 			case "held":
 				m := env.eval(e.Args[0])
 				return []modTarget{{array: "$held", ref: m.S}}
-			case "chanlen":
+			case "tokens":
 				m := env.eval(e.Args[0])
-				return []modTarget{{array: "$chanlen", ref: m.S}}
+				t.regArray("$tok", "(Array Int Int)")
+				t.regArray("$sends", "(Array Int Int)")
+				t.regArray("$timerfired", "(Array Int Bool)")
+				return []modTarget{{array: "$tok", ref: m.S}, {array: "$sends", ref: m.S}}
 			case "closed":
 				m := env.eval(e.Args[0])
 				return []modTarget{{array: "$chanclosed", ref: m.S}}
@@ -531,7 +534,7 @@ func (t *Task) frameCheck(act *Activation, con *FuncContract, st0, out *State) {
 		if !strings.HasPrefix(srt, "(Array Int") {
 			continue
 		}
-		if strings.HasPrefix(name, "$") && name != "$held" && name != "$calls" && name != "$chanlen" && name != "$chanclosed" {
+		if strings.HasPrefix(name, "$") && name != "$held" && name != "$calls" && name != "$tok" && name != "$chanclosed" {
 			continue
 		}
 		if strings.HasPrefix(name, "box:") {
@@ -573,7 +576,7 @@ func (t *Task) frameCheck(act *Activation, con *FuncContract, st0, out *State) {
 		var prem []string
 		if !strings.HasPrefix(name, "$") {
 			prem = append(prem, "(< "+sApp(age, r)+" "+now0+")")
-		} else if name == "$held" || name == "$chanlen" || name == "$chanclosed" {
+		} else if name == "$held" || name == "$tok" || name == "$chanclosed" {
 			prem = append(prem, "(< "+sApp(age, r)+" "+now0+")")
 		}
 		for _, x := range refs {
